@@ -85,7 +85,7 @@ theorem reload_holds_user_table [Mul K] {cfg : Cfg} (hs : cfg.sound = true) (pre
   have h := (run_sim hs pre dflt ops (fresh t) t.get? (fresh_inv pre t)).1
   have h2 := (step_sim hs pre dflt _ _ h .reload).1
   have hd : (step cfg pre dflt (run cfg pre dflt (fresh t) ops).1 .reload).1.derived = [] := by
-    simp only [step, (sound_rest hs).2.2, if_true]; rfl
+    simp only [step, (sound_rest hs).2.2.1, if_true]; rfl
   exact ⟨h2.of_nil hd s, hd⟩
 
 /-- in particular every symbol of the user's table survives a save/load with the user's entry -/
@@ -172,7 +172,7 @@ def toyKg : Name := Name.cons 107 (Name.cons 103 Name.nil)
 /-- every edit forgets, except `add` of a non-prefixable entry over a written-back one -/
 def guardedCfg : Cfg :=
   { addTbl := [true, true, true, false, true, true, true, true], removeForgets := true, modifyForgets := true,
-    dumpSkipsDerived := true, forgetUnconditional := false }
+    dumpSkipsDerived := true, forgetUnconditional := false, copyKeepsFlags := true }
 
 def scaleOf : Out Nat → Option Nat
   | .entry (some e) => some e.scale
